@@ -60,7 +60,7 @@ def window (evs : List RawEv) (i : Nat) : String :=
 def showState (s : State) : String :=
   s!"file={s.file} dirty={s.dirty} req={s.reqPending} ch={s.compileCh} comp={repr s.comp} res={s.res} closing={s.closing} cancelled={s.cancelled} wg={s.wg} close={repr s.close} clients={s.clients.map fun c => (repr c.pc, c.ch, c.sent, c.dropped)}"
 
-/-- harness client id → model index (order of admit/refuse events) -/
+/-- harness client id → model index (order of admission/refusal events) -/
 def lookupIdx (m : List (Int × Nat)) (k : Int) : Option Nat := (m.find? (·.1 == k)).map (·.2)
 
 inductive VRes where
@@ -82,10 +82,14 @@ def validateSession (evs : List RawEv) (cap : Nat := 3000) : VRes := Id.run do
         ss := q
       i := i + 1
       continue
+    if e.k == "accepted" then
+      -- websocket.Accept succeeded; not a step of the model (the handler goroutine starts next)
+      i := i + 1
+      continue
     if e.c == -2 then
       return .fail "unknown-client" s!"event {i} {showEv e}: step of a client that never registered :: {window evs i}"
     let mut c := 0
-    if e.k == "admit" || e.k == "refuse" then
+    if e.k == "admitted" || e.k == "refuse" then
       idx := idx ++ [(e.c, n)]
       n := n + 1
     else if e.c ≥ 0 then
